@@ -206,8 +206,12 @@ Fixpoint dec_sops (l : list sexp) : option (list sop) :=
 
 (* [m]: model image (state + buffer); [prev]: the implementation's previous buffer;
    [cur]: is the cursor still where the last (cur) put it? *)
+(* [lastw]: the width the implementation last REPORTED for a string (an [sw] step) while no metric
+   setting (font, mode, size, spacing, wrap) has changed since: a later rendering of that very string is
+   judged against that report too - callers measure first and draw later (seed C20-6: a memo that
+   survives SetFont makes only the FIRST measurement after the change wrong). *)
 Fixpoint walk_seq (W H : Z) (m : img) (prev : list Z) (cur : bool) (ops : list sop) (obs : list sexp)
-                  (k : Z) (nt : bool) (pending : option sexp) : sexp :=
+                  (k : Z) (nt : bool) (pending : option sexp) (lastw : option (list Z * Z)) : sexp :=
   let wib := (W + 7) / 8 in
   match ops, obs with
   | [], [] => match pending with Some v => v | None => v_ok nt end
@@ -216,32 +220,39 @@ Fixpoint walk_seq (W H : Z) (m : img) (prev : list Z) (cur : bool) (ops : list s
     match o, ob with
     | SSet so, I _ =>
       let cur' := match so with OSetCursor _ _ => true | _ => cur end in
-      walk_seq W H (run_op m so) prev cur' ops' obs' (k + 1) nt pending
+      let lastw' := match so with OSetCursor _ _ => lastw | _ => None end in
+      walk_seq W H (run_op m so) prev cur' ops' obs' (k + 1) nt pending lastw'
     | SClr, B buf =>
       (* FillRect is C16's subject; here the cleared canvas is simply required to be blank *)
       if negb ((zlen buf =? wib * H) && forallb (Z.eqb 0) buf) then fail (L [sym "mismatch"; sym "clr"; I k])
-      else walk_seq W H (with_data m buf) buf cur ops' obs' (k + 1) nt pending
+      else walk_seq W H (with_data m buf) buf cur ops' obs' (k + 1) nt pending lastw
     | SWidth b, I w =>
       let pend := if str_width (it m) b =? w then pending
                   else match pending with Some p => Some p | None => Some (L [sym "mismatch"; sym "strwidth"; I k; I (str_width (it m) b)]) end in
-      walk_seq W H m prev cur ops' obs' (k + 1) nt pend
+      walk_seq W H m prev cur ops' obs' (k + 1) nt pend (Some (b, w))
     | SHeight, I h =>
       let pend := if line_height (it m) =? h then pending
                   else match pending with Some p => Some p | None => Some (L [sym "mismatch"; sym "lineheight"; I k; I (line_height (it m))]) end in
-      walk_seq W H m prev cur ops' obs' (k + 1) nt pend
+      walk_seq W H m prev cur ops' obs' (k + 1) nt pend lastw
     | SText b, L [I w; I h; B buf] =>
       let t := it m in
       let judged := cur && negb (twrap t) && negb (has_lf (range_bytes b)) in
       if negb ((zlen buf =? wib * H) && bytes_ok buf) then L [sym "specfail"; sym "c20-shape"; I k]
       else if judged && negb (box_law_p (8 * wib) H (fpx (rows_of wib prev)) (fpx (rows_of wib buf)) (tcx t) (tcy t) w (tsh t) h)
       then L [sym "specfail"; sym "c20-box"; I k; I w]       (* a spec failure outranks any pending mismatch *)
+      else if judged && match lastw with
+                        | Some (b', w') => bytes_eqb b' b && negb (w' =? w)
+                                           && negb (box_law_p (8 * wib) H (fpx (rows_of wib prev)) (fpx (rows_of wib buf)) (tcx t) (tcy t) w' (tsh t) h)
+                        | None => false
+                        end
+      then L [sym "specfail"; sym "c20-box"; I k; I (match lastw with Some (_, w') => w' | None => w end)]
       else
         let m' := run_op m (OText b) in
         let pend :=
           if (str_width t b =? w) && (line_height t =? h) && bytes_eqb (idata m') buf then pending
           else match pending with Some p => Some p | None => Some (L [sym "mismatch"; sym "txt"; I k; I (str_width t b); I (line_height t)]) end in
         (* keep going on the IMPLEMENTATION's buffer so that later renderings are still judged *)
-        walk_seq W H (with_data m' buf) buf false ops' obs' (k + 1) (nt || (judged && negb (bytes_eqb prev buf))) pend
+        walk_seq W H (with_data m' buf) buf false ops' obs' (k + 1) (nt || (judged && negb (bytes_eqb prev buf))) pend lastw
     | _, _ => L [sym "specfail"; sym "c20-panic"; I k]
     end
   | _, _ => v_badcase
@@ -253,7 +264,7 @@ Definition run_seq (W H : Z) (ops obs : list sexp) : sexp :=
   | None => v_badcase
   | Some sops =>
     let m := run_op (new_image W H) (OSetTextColor true) in
-    walk_seq W H m (idata m) false sops obs 0 false None
+    walk_seq W H m (idata m) false sops obs 0 false None None
   end.
 
 Definition run_any (sx : sexp) : sexp :=
